@@ -20,8 +20,13 @@ TraceNext ==
               /\ UNCHANGED known
          [] e.ev = "Reset" -> known' = {} /\ UNCHANGED bad
          [] e.ev = "Step" ->
-              LET now == Items(Wanted(IngOf(e.st.ing)))
-                  b == StepBroken(known, now, e.st, ItemsOf(e.adds), ItemsOf(e.dels)) IN
+              \* late changes were only taken by this step when its update really failed (else they wait for the next batch)
+              LET now == Items(Wanted(IngOf(IF e.failed THEN e.st.ing ELSE e.st.ing0), e.st.trackann))
+                  \* the update only fails when it needed a reload: what happened is what counts
+                  mid == Items(Wanted(IngOf(e.st.ing0), e.st.trackann))
+                  b == IF e.failed /\ Len(e.st.late) > 0
+                       THEN LateStepBroken(known, mid, now, e.st, ItemsOf(e.adds), ItemsOf(e.dels))
+                       ELSE StepBroken(known, now, [e.st EXCEPT !.fail = e.failed], ItemsOf(e.adds), ItemsOf(e.dels)) IN
               /\ bad' = IF b = "none" THEN bad ELSE bad \cup {[id |-> e.id, step |-> e.step, inv |-> b]}
               \* the controller's view follows the cluster at every sync, leader or not
               /\ known' = now
